@@ -16,12 +16,25 @@ ABSTRACTS = {
         "number_of_variables": ([], INT, False),
     },
 }
-ABS_ISINSTANCE = {}
+ABSTRACTS["AbsBipGraph"] = {
+    "parts": ([], TTuple([RANGE, RANGE]), False),
+    "left_order": ([], INT, False),
+    "right_order": ([], INT, False),
+    "number_of_edges": ([], INT, False),
+    "right_degree": ([INT], INT, True),
+    "right_neighbors": ([INT], TList(INT), True),
+    "left_neighbors": ([INT], TList(INT), True),
+    "has_edge": ([INT, INT], BOOL, False),
+    "edges": ([], TList(TTuple([INT, INT])), False),
+}
+ABS_ISINSTANCE = {"AbsBipGraph": ("BaseBipartiteGraph",)}
 # driver side: Lean parser (type `P <interface>`) per abstract interface; python encoders are in py2lean_selftest.py
 ABS_PARSERS = {
     "AbsFormula": "(do let n ← int; pure (AbsFormula.mk n))",
+    # a bipartite graph literal `l r m u₁ v₁ …` built by the model's own add_edge; a literal the model refuses is a bad request
+    "AbsBipGraph": "(do let g ← bipG; match g with | .ok g => pure (Cnfgen.Vars.absBip g) | .error _ => failure)",
 }
-DRIVER_IMPORTS = []
+DRIVER_IMPORTS = ["CnfgenModel.Vars.GenGlue"]
 
 ITEMS = [
     {"file": VARS, "class": "BlockOfVariables", "property": "C11",
@@ -32,5 +45,30 @@ ITEMS = [
          "_unsafe_index_to_lit": {"params": {"index": TList(INT)}, "lean": "index_to_lit"},
          "to_index": {"params": {"lit": INT}},
          "indices": {"params": {"pattern": TList(TOpt(INT))}, "vararg": "pattern"},
+         "__call__": {"params": {"index": TList(TOpt(INT))}, "vararg": "index"},
+     }},
+    {"file": VARS, "class": "BinaryMappingVariables", "property": "C11",
+     "methods": {
+         "__init__": {"params": {"formula": TAbs("AbsFormula"), "n": INT, "m": INT, "labelfmt": ERASED}},
+         "__len__": {"params": {}},
+         "__contains__": {"params": {"lit": INT}},
+         "domain": {"params": {}},
+         "range": {"params": {}},
+         "bits": {"params": {}},
+         "indices": {"params": {"pattern": TList(TOpt(INT))}, "vararg": "pattern"},
+         "_unsafe_index_to_lit": {"params": {"index": TList(INT)}, "lean": "index_to_lit"},
+         "to_index": {"params": {"lit": INT}},
+         "__call__": {"params": {"index": TList(TOpt(INT))}, "vararg": "index"},
+         "forbid": {"params": {"i": INT, "j": INT}},
+     }},
+    {"file": VARS, "class": "BipartiteEdgesVariables", "property": "C11",
+     "methods": {
+         "__init__": {"params": {"formula": TAbs("AbsFormula"), "G": TAbs("AbsBipGraph"), "labelfmt": ERASED}},
+         "__len__": {"params": {}},
+         "__contains__": {"params": {"lit": INT}},
+         "indices": {"params": {"pattern": TList(TOpt(INT))}, "vararg": "pattern"},
+         "_unsafe_index_to_lit": {"params": {"index": TList(INT)}, "lean": "index_to_lit"},
+         "__call__": {"params": {"index": TList(TOpt(INT))}, "vararg": "index"},
+         "to_index": {"params": {"lit": INT}},
      }},
 ]
